@@ -12,6 +12,9 @@ RULE = ("all N! permutations for N<=4 (quick) / N<=5 (thorough) on p=23 and 2039
         "implementation (sizes crossing power-of-two / batch boundaries)")
 
 
+from props.util import boundary_labels
+
+
 def run(env):
     r = env.rng
     specs = []
@@ -30,6 +33,9 @@ def run(env):
         for pstr, ns in (("65267", [1, 2, 3, 8]), (str(P62), [1, 2, 8] + ([32, 100] if not env.quick else [20])), ("2048", [1] if env.quick else [1, 2])):
             for n in ns:
                 specs.append({"ctx": "%s:%s" % (fl, pstr), "n": n, "perm": None, "seed": "x:" + r.randbytes(5).hex(), "label": "x:" + r.randbytes(n % 7).hex()})
+    # labels whose LENGTH sits on a power-of-two / digest-size boundary (prover and verifier must treat them alike)
+    for k, lab in enumerate(boundary_labels(env.quick)):
+        specs.append({"ctx": ["B:2039", "M:23", "M:2039", "B:23"][k % 4], "n": 1 + k % 3, "perm": None, "seed": "x:", "label": lab})
     env.exhaustive = True
     items = shuf.make_statements(env, specs)
     live = shuf.prove(env, specs, items)
